@@ -117,6 +117,27 @@ def run(ctx):
             ops.math = real_math
         return v, list(shim.tape)
 
+    # history mode: the model is a function of the two cost vectors, so the verdict of the implementation must not
+    # depend on what a comparator object was asked before, nor on the identity of the list objects it is given
+    # (archives and selectors keep ONE comparator and artap updates costs_signed lists in place).  Long-lived
+    # comparators are fed re-used list objects overwritten in place; the verdict must equal the fresh call's.
+    persist, bufs = {}, {}
+    kinds_hist = {"history_calls": 0}
+
+    def impl_history(eps, p, pm, q, qm):
+        key = None if eps is None else tuple(eps)
+        if key not in persist:
+            persist[key] = pareto if eps is None else ops.EpsilonDominance(list(eps))
+        bp = bufs.setdefault(("p", len(p)), [0.0] * (len(p) + 1))
+        bq = bufs.setdefault(("q", len(q)), [0.0] * (len(q) + 1))
+        bp[:] = list(p) + [pm]
+        bq[:] = list(q) + [qm]
+        ops.math = shim
+        try:
+            return persist[key].compare(bp, bq)
+        finally:
+            ops.math = real_math
+
     def add_case(eps, p, pm, q, qm):
         try:
             v, tape = impl(eps, p, pm, q, qm)
@@ -124,6 +145,15 @@ def run(ctx):
             if eps is not None and any(float(e) == 0 for e in eps):
                 return None       # eps = 0 is outside the property (positive epsilons); the code divides by it in the tie-break
             raise
+        vh = impl_history(eps, p, pm, q, qm)
+        kinds_hist["history_calls"] += 1
+        if vh != v:
+            what = ("comparator verdict depends on call history / object identity: %d from a long-lived comparator given re-used "
+                    "list objects updated in place, %d from a fresh comparator on fresh lists" % (vh, v))
+            ctx.oracle_failures.append({"what": what, "input": {"eps": eps, "p": p + [pm], "q": q + [qm]},
+                                        "match": {"kind": "history_dependence", "p": p + [pm], "q": q + [qm], "eps": eps}})
+            ctx.mismatches.append({"what": "implementation is not a function of the two vectors (the model is): " + what,
+                                   "correspondence": "c01-history", "case": {"eps": eps, "p": p + [pm], "q": q + [qm]}})
         cases.append("{| c1_eps := %s; c1_p := %s; c1_pm := %s; c1_q := %s; c1_qm := %s; c1_tape := %s |}" % (
             optl(eps, lambda e: ll(e, fl)), ll(p, fl), zl(pm), ll(q, fl), zl(qm),
             ll(tape, lambda t: pl(fl(t[0]), fl(t[1])))))
@@ -230,7 +260,8 @@ def run(ctx):
     ctx.coq_compare("c01", HEADER, "c01_case", "nat", "c01_run", "Nat.eqb", cases, expected, meta, shard=500)
     ctx.rule = ("pairs/triples over value grids with ties, adjacent floats, huge/tiny magnitudes, markers from %r, epsilon lists %r; "
                 "a case is non-trivial when the two arguments are not the same vector+marker; distinct = distinct (comparator, p, q, markers, eps)") % (MARKERS, EPS_CHOICES)
-    ctx.extra.update({"verdict_histogram": hist, "case_kinds": kinds, "transitivity_premises_met": trans_checked})
+    ctx.extra.update({"verdict_histogram": hist, "case_kinds": kinds, "transitivity_premises_met": trans_checked,
+                      "history_mode_calls": kinds_hist["history_calls"]})
 
 LEVEL_TEXT = ("Machine-checked Coq theorems over a model of both comparators, for every vector length, every value of any "
               "strictly-weakly-ordered cost type (instantiated at binary64 with the order proved from the IEEE spec) and every "
